@@ -254,3 +254,31 @@ def _fmt_prec(vals, v):
     shown = min(prec, 100000)   # larger precisions would only allocate more; the failing class is > 65535
     return [{"source": 'std.length("%%.%d%s" %% (%r))' % (shown, conv, value), "oracle": {"oracle": "no_crash"},
              "note": "precision from the counterexample: %d" % prec}]
+
+
+@adapter("slice_range")
+def _slice_range(vals, v):
+    i = 0
+    ln = u(vals, i); i += 1
+    args = []
+    for _ in range(3):
+        some = bool(vals[i][0]); i += 1
+        if some:
+            args.append(f64(vals, i)); i += 1
+        else:
+            args.append(None)
+    L = min(ln, 40)
+    def lit(x):
+        return "" if x is None else repr(x)
+    cases = []
+    ints = all(a is None or (a == a and abs(a) != float("inf") and float(a).is_integer()) for a in args)
+    for seq, pyseq in (("std.range(0, %d)" % (L - 1) if L > 0 else "[]", list(range(L))),
+                       ('"%s"' % "".join(chr(0x3b1 + j % 20) for j in range(L)), None)):
+        src = "%s[%s:%s:%s]" % (seq, lit(args[0]), lit(args[1]), lit(args[2]))
+        if ints and (args[2] is None or args[2] >= 1):
+            sl = slice(*(None if a is None else int(a) for a in args))
+            base = pyseq if pyseq is not None else "".join(chr(0x3b1 + j % 20) for j in range(L))
+            cases.append({"source": src, "oracle": {"oracle": "stdout_json_equals", "expected": base[sl]}})
+        else:
+            cases.append({"source": src, "oracle": {"oracle": "no_crash"}})
+    return cases
